@@ -12,7 +12,7 @@ import (
 	"verif/simunix"
 )
 
-var Dirs = []string{"d1", "d2"}
+var Dirs = []string{"d", "d2"}
 var NamesAB = []string{"f", "g"}
 
 func Big(n int, seed byte) []byte {
